@@ -11,7 +11,7 @@ from harness.refmodel import freeze
 S = load()
 
 PROPERTY = "C16"
-LEVEL_TEXT = 'Exploration: fingerprint() compared with a fresh rebuild at every read and at program end (histories), under random interleavings of table reads / column reads / four write paths, plus metamorphic sensitivity for single-position changes and swaps.'
+LEVEL_TEXT = 'Exploration: fingerprint() compared with a fresh rebuild at every read and at program end (histories), under random interleavings of table reads / column reads / four write paths, plus metamorphic sensitivity for single-position changes and swaps (scalars and tuple / list / dict / set cells), equal-valued overwrites of the next rung, and refused writes.'
 LEVEL_NOTE = "'Notices every change' is decided only for changes a 61-bit polynomial digest must see (rule 4.7)."
 DESIGN_REF = "DESIGN.md §5 C16"
 ENGINE = "world"
@@ -20,7 +20,7 @@ RULE = ("histories: world programs with fingerprint() as an explicit step, so ev
         "before-last-write / read-after, interleaved with element, slice, mask, index-list assignment, promotion, table cell / row / "
         "column / region assignment, writes through live column views, attribute replacement and renames; every live object is "
         "compared with a fresh rebuild at each read and at program end. sensitivity: generated vectors / tables with one position "
-        "changed to a hash-distinguishable value, two positions swapped, or a permutation. Non-trivial = a fingerprint read on a "
+        "changed to a hash-distinguishable value (compound cells judged on a canonical hashable form), two positions swapped, or a permutation; an element overwritten by an equal value of the next rung (1 -> 1.0, a day -> its midnight); writes that are refused after the fingerprint was cached. Non-trivial = a fingerprint read on a "
         "table before a write through a view / table assignment and a read after; distinct = case encoding.")
 ASSUMPTIONS = [
     "'notices every change' is decided for changes a 61-bit polynomial digest over hash() must see: one changed position (or a swap of two positions) whose old and new values have different hash(), ints bounded by 2^59; multi-position writes can cancel by construction and are not asserted",
